@@ -77,7 +77,8 @@ CHECKS = {
         "text": "Generated bar grids (start minute, interval 1 min .. 1 day, 1-600 bars) are run through the real Actuator.run with 16-48 independent "
         "triggers of all six time-trigger classes, parameters placed relative to the grid (on/off a bar, with seconds, before/after the data, "
         "touching/overlapping ranges, periods that do / do not divide the interval, coinciding periods, delays, immediate flag), registered in "
-        "initialize or later; firing set, one call per firing with the extra arguments, and retirement only when no later bar is denoted.",
+        "initialize or later, a quarter of the periodic ones re-armed once by the public reset() (from before_bar, on_bar, after_bar or their "
+        "own action; judged from then on as a freshly armed trigger whose first bar is the bar evaluated next); firing set, one call per firing with the extra arguments, and retirement only when no later bar is denoted.",
         "note": "Times are compared after truncation to the minute. Empty lists / zero periods are outside the specification. Sampled grids and "
         "parameters.",
     },
